@@ -100,10 +100,19 @@ Lemma ext_key_loop_nil : forall ie cf spe pcx mask fuel kv, ext_key_loop ie cf s
 Proof. intros. destruct fuel; reflexivity. Qed.
 Lemma ext_key_loop_0 : forall ie cf spe pcx mask pw kv, ext_key_loop ie cf spe pcx mask 0 pw kv = kv.
 Proof. reflexivity. Qed.
+(* unfolding by an equation whose right-hand side is a stuck match: the kernel never has to compare the accumulator
+   with [Z.lxor (spec_encrypt ..) ..] (which would force it to evaluate sixteen symbolic rounds) *)
+Lemma spec_ext_fold_S : forall fuel pw kv,
+  spec_ext_fold (S fuel) pw kv =
+  match pw with
+  | [] => kv
+  | _ => spec_ext_fold fuel (skipn 8 pw) (Z.lxor (spec_encrypt kv kv 0 1) (spec_key (firstn 8 pw)))
+  end.
+Proof. reflexivity. Qed.
 Lemma spec_ext_fold_cons : forall fuel c r kv,
   spec_ext_fold (S fuel) (c :: r) kv =
   spec_ext_fold fuel (skipn 8 (c :: r)) (Z.lxor (spec_encrypt kv kv 0 1) (spec_key (firstn 8 (c :: r)))).
-Proof. intros. cbn [spec_ext_fold]. reflexivity. Qed.
+Proof. intros. rewrite spec_ext_fold_S. reflexivity. Qed.
 Lemma spec_ext_fold_nil : forall fuel kv, spec_ext_fold fuel [] kv = kv.
 Proof. intros. destruct fuel; reflexivity. Qed.
 
